@@ -216,7 +216,13 @@ func verifyFunctionOnce(w *World, specs *Specs, ct *Contract, inst map[string]st
 			c.inputs = append(c.inputs, InputVar{Name: v.Name(), Term: val.T, Type: f.typ(v.Type())})
 		}
 		// pointer parameters are assumed non-nil (stated in evidence)
-		if _, ok := val.Ty.Underlying().(*types.Pointer); ok && !isBigInt(val.Ty) {
+		nilable := false
+		for _, n := range ct.Nilable {
+			if n == v.Name() {
+				nilable = true
+			}
+		}
+		if _, ok := val.Ty.Underlying().(*types.Pointer); ok && !isBigInt(val.Ty) && !nilable {
 			so := c.sorts.SortOf(val.Ty)
 			st.assume(fmt.Sprintf("(not (%s.nil %s))", so, val.T))
 			c.note("pointer parameters/receivers assumed non-nil and non-aliased")
